@@ -75,6 +75,23 @@ def main(argv=None):
         return 3
 
 
+def _replay_any(rtc, case):
+    """case may be one case dict or a list of candidate cases: the first one that FAILS on the real code wins"""
+    if isinstance(case, dict):
+        ok, msg = rtc.replay(case)
+        return ok, msg, case
+    last = (True, "no candidate case", None)
+    for c in case:
+        try:
+            ok, msg = rtc.replay(c)
+        except Exception as e:  # the real code crashing on a candidate input is a failure of that input
+            ok, msg = False, f"{type(e).__name__}: {e}"
+        if not ok:
+            return False, msg, c
+        last = (True, f"{len(case)} candidate inputs all satisfy the property (last: {msg})", c)
+    return last
+
+
 def _standin_module(prop):
     try:
         return importlib.import_module("rtc." + prop.lower())
@@ -181,7 +198,7 @@ def _run(prop, a, seed, t0):
                     except Exception:
                         case = None
                     if case is not None:
-                        ok, msg = rtc.replay(case)
+                        ok, msg, case = _replay_any(rtc, case)
                         if not ok:
                             seen_refuted.add(oid)
                             path = _write_replay(prop, oid, {"property": prop, "obligation": oid, "source": "undecided VC; candidate counterexample of its quantifier-free part fails on the real code", "backend": o.backend, "solver_model": o.model, "case": case, "replay_message": str(msg)})
@@ -203,7 +220,8 @@ def _run(prop, a, seed, t0):
         payload = {"property": prop, "obligation": oid, "kind": o.kind, "source": "refuted verification condition",
                    "backend": o.backend, "solver_model": o.model, "function_line": o.where, "case": case}
         if case is not None and rtc is not None:
-            ok, msg = rtc.replay(case)
+            ok, msg, case = _replay_any(rtc, case)
+            payload["case"] = case
             payload["replay_message"] = str(msg)
             if ok:
                 proof_lost.append(oid)
